@@ -66,6 +66,7 @@ def allocate_spec(ctx: Ctx):
         (mr * qu > 0) == (m > 0), (mr * qu < 0) == (m < 0),
         (mr * qu == 0) == (m == 0),
         *[(mr * qu - j * qu == 0) == (m == j) for j in range(-n, n + 1)],
+        *[z3.Implies(m == j, mr * qu == j * qu) for j in range(-n, n + 1)],
         # the remainder after moving j quanta is the multiple (m - j) of the
         # quantum: definitional instances of the ghost witness grid_k
         *[z3.And(grid_k(mr * qu - j * qu, qu) == m - j,
